@@ -241,10 +241,26 @@ func (e *rtEnv) hostOf(letter string) (host string, peer *Peer) {
 		return "a.test", e.oa
 	case "B":
 		return "b.test", e.ob
+	case "LA":
+		if rtAlias != "" {
+			return rtAlias, e.ol
+		}
+		return "localhost", e.ol
 	default:
 		return "localhost", e.ol
 	}
 }
+
+// rtAlias is a name the hosts file maps to a loopback address, other than "localhost" ("" if there is none): such a
+// name is localhost to the proxy as well.
+var rtAlias = func() string {
+	for _, n := range hostsFileLoopbackNames() {
+		if !strings.EqualFold(n, "localhost") && !strings.Contains(n, ".") {
+			return n
+		}
+	}
+	return ""
+}()
 
 func (e *rtEnv) pacScript(m map[string]string) string {
 	var b strings.Builder
@@ -375,7 +391,11 @@ func genRTReqs(t *rapid.T, withCreds bool, mitm bool) []RTReq {
 	var out []RTReq
 	n := rapid.IntRange(1, 4).Draw(t, "nreqs")
 	for i := 0; i < n; i++ {
-		r := RTReq{Host: rapid.SampledFrom([]string{"A", "A", "B", "L"}).Draw(t, "host"), Kind: rapid.SampledFrom([]string{"http", "http", "connect"}).Draw(t, "kind"),
+		hosts := []string{"A", "A", "B", "L"}
+		if rtAlias != "" {
+			hosts = append(hosts, "LA")
+		}
+		r := RTReq{Host: rapid.SampledFrom(hosts).Draw(t, "host"), Kind: rapid.SampledFrom([]string{"http", "http", "connect"}).Draw(t, "kind"),
 			Method: rapid.SampledFrom([]string{"GET", "POST", "HEAD"}).Draw(t, "method")}
 		r.Alt = rapid.IntRange(0, 2).Draw(t, "alt") == 0
 		{
@@ -440,7 +460,7 @@ type route struct {
 }
 
 func (e *rtEnv) peerAt(addr string) string {
-	if h, p, err := net.SplitHostPort(addr); err == nil && h == "localhost" {
+	if h, p, err := net.SplitHostPort(addr); err == nil && (h == "localhost" || (rtAlias != "" && h == rtAlias)) {
 		addr = net.JoinHostPort("127.0.0.1", p)
 	}
 	for n, p := range e.peers {
@@ -461,7 +481,7 @@ func (e *rtEnv) refRoute(cfg RTConfig, r RTReq) route {
 		useProxy = false
 		direct("no upstream configured")
 	}
-	if useProxy && cfg.Localhost == "direct" && r.Host == "L" {
+	if useProxy && cfg.Localhost == "direct" && (r.Host == "L" || r.Host == "LA") {
 		useProxy = false
 		direct("localhost in direct mode")
 	}
